@@ -81,7 +81,8 @@ def _convert(docs, rseed, pipeline_suffix):
     pipeline = None
     if pipeline_suffix:
         pipeline = ProcessingPipeline.from_dict({"transformations": [{"type": "field_name_suffix", "suffix": pipeline_suffix}]})
-    backend = make_backend(CFG, pipeline)
+    from vf.target.correlation import correlation_attrs
+    backend = make_backend(CFG, pipeline, extra_attrs=correlation_attrs({}))
     per_rule: dict[str, list] = {}
 
     def cb(rule, fmt, index, cond, result):
@@ -216,7 +217,7 @@ def cases(draw):
         det["condition"] = draw(st.sampled_from(_valid(RULE_CONDS, names)))
         rules.append({"title": f"rule{i}", "id": UUIDS[i], "name": f"rn{i}", "logsource": draw(st.sampled_from(LOGSOURCES)),
                       "detection": det})
-    if False and draw(st.integers(0, 5)) == 0:  # enabled once the verification backend has correlation templates
+    if draw(st.integers(0, 5)) == 0:
         rules.append({"title": "corr", "correlation": {"type": "event_count", "rules": ["rn0"], "timespan": "5m",
                                                        "condition": {"gte": 2}, "generate": True}})
     nf = draw(st.integers(1, 3))
